@@ -263,13 +263,15 @@ pub fn main(tier: Tier, replay: Option<String>) -> i32 {
             let cats2 = cats.clone();
             let lc: Vec<char> = left.iter().map(|s| s.chars().next().unwrap()).collect();
             let rc: Vec<char> = right.iter().map(|s| s.chars().next().unwrap()).collect();
-            let bounds = TreeBounds::full(tier.pick(5, 8));
+            let bounds = tier.pick(TreeBounds { full_len: 4, ext_len: 6, max_special: 1 }, TreeBounds { full_len: 5, ext_len: 8, max_special: 2 });
             let b = json!({"tree": bounds.to_json(), "maxYomiganaLength": max, "brackets": bl});
             jobs.push(job(
                 NormTree {
                     label: format!("yomigana-max{}-{}", max, bl),
                     worlds: vec![w],
-                    alpha: syms(&["漢", "(", ")", "カ", "な", "a", "（", "）", "一", "ァ", "ー"], &[]),
+                    // specials: multi-class kanji / kana, and the code points directly after a
+                    // multi-character KANJI / HIRAGANA / KATAKANA range of the shipped char.def
+                    alpha: syms(&["漢", "(", ")", "カ", "な", "（", "）"], &["a", "一", "ァ", "ー", "・", "゠", "\u{a000}", "\u{30a0}", "\u{2fd6}"]),
                     bounds,
                     reference: Box::new(move |s| {
                         ref_yomigana(
